@@ -4007,6 +4007,14 @@ class SQLCompiler(Compiled):
                         "it for expressions that aren't IN, otherwise use "
                         "a different parameter name." % (name,)
                     )
+                elif bool(existing.literal_execute) != bool(
+                    bindparam.literal_execute
+                ):
+                    raise exc.CompileError(
+                        "Can't reuse bound parameter name '%s' both with and "
+                        "without literal_execute=True; use a different "
+                        "parameter name." % (name,)
+                    )
                 elif existing._is_crud or bindparam._is_crud:
                     if existing._is_crud and bindparam._is_crud:
                         # TODO: this condition is not well understood.
